@@ -1,39 +1,159 @@
 /-
   Props.C04 — Compaction preserves the logical content of TSM files.
-  (theorems; helper lemmas live in Influx/Lemmas/Compact*.lean)
+
+  Model: Influx.Model.CompactIter (tsmBatchKeyIterator.Next/merge/combine/chunk with the
+  ported sort.Stable, cacheKeyIterator, Compactor.write roll-over) and
+  Influx.Model.CompactCase (files, range deletes, cache of a case).
+  Statement: Influx.Spec.C04.holdsOn.  Helper lemmas: Influx/Lemmas/Compact*.lean.
+
+  What is proved here, for inputs of any size:
+    * `C04_iterator`      the block sequence a compaction writes (any files, any tombstones,
+                          full or fast, any size ≥ 1) has ascending keys and, per key, exactly
+                          the newest-wins content of the key's blocks minus tombstones, in
+                          ascending non-overlapping blocks that are either re-encoded with
+                          1..size values or input blocks forwarded unchanged — as long as no
+                          key has more than 20 blocks (sort.Stable = insertion sort);
+    * `C04_sort_stable_fails`  beyond 20 blocks the ported sort.Stable does reorder two
+                          overlapping blocks (the finding);
+    * `C04_snapshot`      WriteSnapshot: the statement holds, no hypothesis;
+    * `C04_holdsOn_partial`  the statement checker accepts every model trace under the
+                          explicit hypotheses `CaseGood`;
+    * `C04_full_fails`    the statement as written fails: a forwarded input block may
+                          exceed the requested points-per-block.
 -/
-import Influx.Model.CompactCase
-import Influx.Spec.C04
+import Influx.Lemmas.CompactTrace
 
 namespace Influx.Props.C04
 open Influx.Model.Compact Influx.Spec.C04
 
-/-- `chunk<T>`: a block the iterator re-encodes holds between 1 and `size` values. -/
-theorem chunk_block_size {V : Type} (size : Nat) (hs : 0 < size) (mv : Pts V) (out : List (OBlk V)) (mv' : Pts V)
-    (h : chunk size [] mv = .ok (out, mv')) : ∀ b ∈ out, 1 ≤ b.pts.length ∧ b.pts.length ≤ size := by
-  unfold chunk at h
-  split at h
-  · next hgt =>
-    cases h1 : ptsMin (List.take size mv) <;> simp [h1, bind, Except.bind] at h
-    cases h2 : ptsMax (List.take size mv) <;> simp [h2, pure, Except.pure] at h
-    obtain ⟨rfl, rfl⟩ := h
-    intro b hb
-    simp at hb
-    subst hb
-    simp
+/-! ### the iterator -/
+
+/-- **C04, iterator level.**  For every set of input files (`FilesOK`: per file ascending
+    non-empty keys, well-formed fresh blocks with arbitrary tombstones, at most 20 blocks per
+    key), mode and size ≥ 1: if the model of `tsmBatchKeyIterator` + write loop returns a
+    sequence, its keys never decrease and for every key `k` the blocks written for `k`
+    (a) concatenate to a strictly ascending list of points — so they are ascending and do not
+    overlap —, (b) hold exactly `restAt (blocksFor files k)`, the value of the last file
+    (in file order) that has a non-tombstoned point at that time, and (c) are each either a
+    re-encoded block of 1..size values or one of the key's input blocks forwarded as is. -/
+theorem C04_iterator {V : Type} (cfg : Cfg) (hs : 0 < cfg.size) (files : List (FileRuns V)) (ok : FilesOK files)
+    (seq : List (Key × OBlk V)) (h : compactSeq cfg files = .ok seq) :
+    KeysSorted seq ∧
+    ∀ k, Asc (outPts (seqOf k seq)) ∧
+      (∀ t, lookup (outPts (seqOf k seq)) t = restAt (blocksFor files k) t) ∧
+      (∀ o ∈ seqOf k seq, OBlkOK o ∧
+        ((1 ≤ o.pts.length ∧ o.pts.length ≤ cfg.size) ∨ ∃ b0 ∈ blocksFor files k, o = passThrough b0)) := by
+  have ro := compactSeq_spec cfg hs files ok seq h
+  refine ⟨ro.sorted, fun k => ?_⟩
+  have kt := ro.keys k
+  exact ⟨by simpa using kt.asc, fun t => by have := kt.content t; simpa using this.symm, kt.blocks⟩
+
+/-- one `merge<T>()` call preserves the per-key invariant (frontier, ascending output,
+    content = target), for at most 20 remaining blocks -/
+theorem C04_merge_step {V : Type} (cfg : Cfg) {T : Int} {st st' : KSt V} {O : Pts V} {target : Int → Option V}
+    (inv : KInv T st O target) (hm : st.merged = []) (hlen : st.blocks.length ≤ 20)
+    (h : mergeStep cfg st = .ok st') : StepOut cfg.size T st st' O target :=
+  mergeStep_spec cfg inv hm hlen h
+
+/-- `Compactor.write` roll-over: the files hold the emitted sequence in order, none is empty
+    (for every block-count / size threshold) -/
+theorem C04_rollover {V : Type} (lim : Limits) (bsz : OBlk V → Nat) (seq : List (Key × OBlk V)) :
+    (splitFiles lim bsz (seq.length + 1) seq).flatten = seq ∧
+    ∀ f ∈ splitFiles lim bsz (seq.length + 1) seq, f ≠ [] :=
+  splitFiles_spec lim bsz (seq.length + 1) seq (Nat.lt_succ_self _)
+
+/-! ### snapshots -/
+
+/-- **C04 for `WriteSnapshot`** (no hypothesis): the files written for a deduplicated cache
+    satisfy the statement — last write wins, keys sorted, blocks ascending, ≤ size values. -/
+theorem C04_snapshot (ops : List Op) (size : Nat) (files : List OutFile)
+    (h : modelSnap ops size = Obs.out files) :
+    judge ops true (if size = 0 then 1000 else size) files = none :=
+  modelSnap_ok ops size files h
+
+/-! ### the statement checker on model traces -/
+
+/-- **C04_holdsOn (partial).**  The run-time oracle accepts every trace of the model, for all
+    cases whose compactions satisfy `GoodAt`.  Missing for the full theorem: range deletes
+    (`NoDel`), keys with more than 20 blocks (false there: `C04_sort_stable_fails`), inputs
+    with blocks larger than `size` (false there: `C04_full_fails`), termination of the model. -/
+theorem C04_holdsOn_partial (ops : List Op) (h : CaseGood init ops) : holdsOn (run init ops) = true := by
+  unfold holdsOn
+  have : judgeAll [] (run init ops) = none := judgeAll_run ops init trivial h
+  rw [this]; rfl
+
+
+/-- the hypothesis of `C04_holdsOn_partial` is met by a non-trivial case: two files with an
+    overlapping, partly duplicate key (t = 2 in both), compacted with size 2 -/
+example : CaseGood init
+    [Op.blk 0 [105, 49] [(1,10),(2,11)], Op.blk 0 [105, 49] [(5,12)], Op.blk 1 [105, 49] [(2,20),(3,21)],
+     Op.compact false 2 false] := by
+  let acc3 : List Op := [Op.blk 0 [105, 49] [(1,10),(2,11)], Op.blk 0 [105, 49] [(5,12)], Op.blk 1 [105, 49] [(2,20),(3,21)]]
+  have hs : (step (step (step init (Op.blk 0 [105, 49] [(1,10),(2,11)])).1 (Op.blk 0 [105, 49] [(5,12)])).1
+      (Op.blk 1 [105, 49] [(2,20),(3,21)])).1 = acc3.reverse := by decide
+  refine ⟨trivial, trivial, trivial, ?_, trivial⟩
+  show (2 = 0 ∨ 2 > 100000) ∨ GoodAt (step (step (step init _).1 _).1 _).1.reverse false 2
+  rw [hs, List.reverse_reverse]
+  right
+  refine ⟨?_, ?_, ?_, ?_⟩
+  · intro op hop f keys lo hi
+    simp [acc3] at hop
+    rcases hop with rfl | rfl | rfl <;> simp
+  · intro k
+    have hf : fileIds acc3 = [0, 1] := by decide
+    simp only [blocksOfKey, hf, List.flatMap_cons, List.flatMap_nil, List.append_nil, List.length_append]
+    have h0 := ptsOf_length_le 0 k acc3
+    have h1 := ptsOf_length_le 1 k acc3
+    have : acc3.length = 3 := rfl
     omega
-  · split at h
-    · next hle hpos =>
-      cases h1 : ptsMin mv <;> simp [h1, bind, Except.bind] at h
-      cases h2 : ptsMax mv <;> simp [h2, pure, Except.pure] at h
-      obtain ⟨rfl, rfl⟩ := h
-      intro b hb
-      simp at hb
-      subst hb
-      simp
-      omega
-    · simp [pure, Except.pure] at h
-      obtain ⟨rfl, rfl⟩ := h
-      simp
+  · intro f k pts h
+    simp [acc3] at h
+    rcases h with ⟨_, _, rfl⟩ | ⟨_, _, rfl⟩ | ⟨_, _, rfl⟩ <;> simp
+  · exact ⟨[[([105, 49], ⟨1, 2, [(1,10),(2,20)]⟩), ([105, 49], ⟨3, 5, [(3,21),(5,12)]⟩)]], by decide⟩
+
+/-! ### where the statement fails -/
+
+/-- **C04_full_fails.**  The statement as written ("no block exceeds the requested
+    points-per-block") is false of the code: one 3-point block compacted with size 2 is
+    forwarded unchanged (`combine`: `if count < k.size { break }; k.merged = append(k.merged, k.blocks[i])`). -/
+theorem C04_full_fails : ¬ ∀ ops, holdsOn (run init ops) = true := by
+  intro h
+  have := h [Op.blk 0 [105] [(1,1),(2,2),(3,3)], Op.compact false 2 false]
+  revert this
+  decide
+
+/-- the input of the second finding: key `s1`, 15 short blocks and one late block in file 0,
+    a descending staircase of overlapping blocks in files 1–4, a short block in file 5 -/
+def gt20Witness : List Op :=
+  let k : Key := [115, 49]
+  [Op.blk 0 k [(1,1),(2,2)], Op.blk 0 k [(3,3),(5,4)], Op.blk 0 k [(7,5),(8,6)], Op.blk 0 k [(9,7),(10,8)],
+   Op.blk 0 k [(12,9),(14,10)], Op.blk 0 k [(15,11),(16,12)], Op.blk 0 k [(17,13)], Op.blk 0 k [(19,14)],
+   Op.blk 0 k [(20,15),(21,16)], Op.blk 0 k [(22,17)], Op.blk 0 k [(23,18),(25,19)], Op.blk 0 k [(27,20),(28,21)],
+   Op.blk 0 k [(30,22),(32,23)], Op.blk 0 k [(34,24)], Op.blk 0 k [(35,25)],
+   Op.blk 0 k [(134,26),(139,27),(144,28)],
+   Op.blk 1 k [(127,29),(130,30),(133,31),(134,32),(136,33),(138,34)],
+   Op.blk 2 k [(115,35),(119,36),(121,37),(123,38),(126,39),(129,40)],
+   Op.blk 3 k [(109,41),(110,42),(114,43),(117,44),(121,45)],
+   Op.blk 4 k [(115,46),(118,47),(119,48)],
+   Op.blk 5 k [(113,49),(118,50)],
+   Op.compact true 7 true]
+
+set_option maxRecDepth 1000000 in
+/-- **second finding: the content clause fails for a key with more than 20 blocks.**
+    `sort.Stable` leaves its insertion-sort regime; `blocks.Less` is not a strict weak order, and
+    symMerge's binary search moves the block of file 5 in front of the overlapping block of
+    file 4; `combine` then merges them in that order and the OLDER value (47, file 4) wins at
+    t = 118 over the newer one (50, file 5).  No delete, no oversized block is involved. -/
+theorem C04_content_fails_gt20 : holdsOn (run init gt20Witness) = false := by decide
+
+/-- the mechanism of the second finding, in isolation: the ported `sort.Stable` puts the block
+    [113,118] (last in file order) before the overlapping block [115,119] of the file before it. -/
+theorem C04_sort_stable_fails :
+    let mk (a z : Int) : Block Unit := { minTime := a, maxTime := z, pts := [], tombstones := [] }
+    let L := [mk 1 2, mk 3 5, mk 7 8, mk 9 10, mk 12 14, mk 15 16, mk 17 17, mk 19 19, mk 20 21, mk 22 22,
+              mk 23 25, mk 27 28, mk 30 32, mk 34 34, mk 35 35, mk 134 144, mk 127 138, mk 115 129,
+              mk 109 121, mk 115 119, mk 113 118]
+    ((Sort.stable blkLess L).map (·.minTime)).drop 15 = [113, 134, 127, 115, 109, 115] := by
+  decide
 
 end Influx.Props.C04
